@@ -49,7 +49,11 @@ func GetJsonDataType(t dsl.Type) JsonDataType {
 		return res
 	}
 
-	scalarType := gt.Cases[0].Type.(*dsl.SimpleType)
+	scalarType, ok := gt.Cases[0].Type.(*dsl.SimpleType)
+	if !ok {
+		// a single-case type written as a sequence (`[T]`) wraps another type
+		return GetJsonDataType(gt.Cases[0].Type)
+	}
 	switch td := scalarType.ResolvedDefinition.(type) {
 	case dsl.PrimitiveDefinition:
 		switch td {
